@@ -91,6 +91,13 @@ def generate(R, tier):
             p["win"] = spec["win"] = G.aim_window(R, p)
         spec["mf"] = False
         spec["frag"] = 0
+        old = "0204%04x" % p["mss"]
+        if p["mss"] > 0 and spec["opts"].count(old) == 1 and spec["opts"].index(old) % 2 == 0 and R.random() < 0.04:
+            # an MSS too large for any datagram (Linux over IPv6 loopback announces 65476 with window 65476): a value like any other for the divisor rule
+            big = R.choice([65535, 65496, 65495, 65476, 65475, 65500])
+            spec["opts"] = spec["opts"].replace(old, "0204%04x" % big, 1)
+            p["mss"] = big
+            p["win"] = spec["win"] = R.choice([big, big, (big + p["hdr"]) if big + p["hdr"] <= 65535 else big, big - 12])
         yield {"stream": "wire-syn" if ty == 2 else "wire-synack", "pkt": p, "spec": spec, "syn_mss": syn_mss}
 
 
@@ -120,6 +127,9 @@ def impl_init():
     from harness.props import c02
     api_impl = c02.impl_init()
 
+    from harness import implutil as _U
+    MTU_DB = _U.load_db("[mtu]\nlabel = Ethernet\nsig = 1500\n")
+
     def impl(c):
         p = c["pkt"]
         if c.get("api"):
@@ -134,7 +144,17 @@ def impl_init():
                 obj = U.scapy_reused_window(sp, parse_packet)
             else:
                 obj = U.scapy_from_spec(sp)
-            ps = TCPPacketSignature.from_packet(parse_packet(obj), c["syn_mss"])
+            k = parse_packet(obj)
+            if (sp.get("win", 0) // 3 + c["syn_mss"]) % 2 == 0:
+                # the parsed Packet has been through fingerprint_mtu first (an unloaded database: the call raises after looking at the packet, or not): same packet afterwards
+                from pyp0f.exceptions import DatabaseError, PacketError
+                from pyp0f.fingerprint import fingerprint_mtu
+                from pyp0f.options import Options
+                try:
+                    fingerprint_mtu(k, options=Options(database=MTU_DB))
+                except (DatabaseError, PacketError):
+                    pass
+            ps = TCPPacketSignature.from_packet(k, c["syn_mss"])
             if (sp.get("win", 0) // 7 + c["syn_mss"]) % 3 == 0:
                 # the signature has served as the REFERENCE of an uptime measurement in between (a later ACK of the same host, one second on, whose timestamp
                 # has jumped out of every plausible range): it still describes its packet, and so does the multiplier computed from it afterwards
